@@ -56,7 +56,11 @@ CaseRec == [fam |-> "idpfaults", in |-> c,
             req |-> (IF Tolerated(c.flow, c.call, c.kind) THEN [panic |-> FALSE, nextOK |-> TRUE, pkceOK |-> TRUE, answeredAgain |-> TRUE]
                      ELSE [created |-> FALSE, extended |-> FALSE, panic |-> FALSE, nextOK |-> TRUE, pkceOK |-> TRUE, answeredAgain |-> TRUE]
                           \* (control against vacuity: with the keys available the same session IS re-validated and served)
-                          @@ (IF c.flow = "validate" THEN [controlServed |-> TRUE] ELSE <<>>))]
+                          @@ (IF c.flow = "validate" THEN [controlServed |-> TRUE] ELSE <<>>)
+                          \* a session due for a refresh whose own tokens have expired (self-contained credential): with the refresh failing it
+                          \* is not honoured - at the first presentation of the cookie or at a second one while the provider still fails
+                          @@ (IF c.flow = "refresh" /\ c.call = "token_refresh" /\ c.kind \in (Transport \ {"stall", "huge"})
+                              THEN [expiredServed |-> FALSE, expiredReplayServed |-> FALSE] ELSE <<>>))]
 EmitVocab == JsonSerialize("vocab.json", Vocab)
 EmitCase  == CSVWrite("%1$s", <<ToJson(CaseRec)>>, "cases.ndjson")
 =============================================================================
